@@ -377,13 +377,18 @@ Theorem func_dispatch op c cl : (has_param (cvar c) = false -> cparam c = 0) ->
 Proof.
   intros Hwf H. pose proof func_ok as HH. apply andb_prop in HH as [HH H4]. apply andb_prop in HH as [HH H3].
   apply andb_prop in HH as [H1 H2]. unfold func_call in H.
-  destruct op; eapply narm_dispatch; eassumption.
+  (* explicit instances: letting unification search the hypotheses may try to convert the big generated lists *)
+  destruct op.
+  - exact (narm_dispatch OpRead func_reader_consts func_reader_new c cl H1 Hwf H).
+  - exact (narm_dispatch OpWrite func_writer_consts func_writer_new c cl H2 Hwf H).
+  - exact (narm_dispatch OpLen func_len_consts func_len_new c cl H3 Hwf H).
 Qed.
 Theorem factory_dispatch c cl : (has_param (cvar c) = false -> cparam c = 0) ->
   factory_call c = Some cl -> same_code OpRead cl (direct_call c) = true.
 Proof.
   intros Hwf H. pose proof func_ok as HH. apply andb_prop in HH as [HH H4].
-  unfold factory_call in H. eapply narm_dispatch; eassumption.
+  unfold factory_call in H.
+  exact (narm_dispatch OpRead factory_reader_consts factory_reader_new c cl H4 Hwf H).
 Qed.
 
 (* ------------------------------------------------------------------ C16: equal codes, identifiers *)
